@@ -12,6 +12,13 @@
 (*        "multi"  : NOps sweeps with pairwise disjoint keys -> product, +, MultiSweep         *)
 (*        "filter" : one Sweep without constants/exclude, a key set -> filtered_sweep           *)
 (*        "count"  : one Sweep, a pipeline of a fixed family -> count_sweep                     *)
+(*        "hist"   : three Sweep objects and a history of <= MaxSteps sums formed step by step   *)
+(*                   (x + y / x.combine(y) / MultiSweep(..) over operands AND earlier results);  *)
+(*                   here Next is a real action (one more step) and every reachable state is a   *)
+(*                   case: the objects and what each of them must enumerate after the history    *)
+(* In mode "multi" every case is also evaluated through every sum expression of SumExprs(NOps)  *)
+(* (all nestings / spellings of +, combine, MultiSweep over the operands in order), exported    *)
+(* once per run as a "SHAPES" line.                                                             *)
 (*                                                                         *)
 (* Universe parameters: MinKeys..MaxKeys item keys (in total over the      *)
 (* operands of a case); value lists of length 0..MaxLen over NVals values  *)
@@ -24,7 +31,7 @@
 (* Shard/NShards split the universe over processes.                        *)
 (***************************************************************************)
 EXTENDS Sweep, Json
-CONSTANTS Mode, MinKeys, MaxKeys, MaxLen, MaxEmpty, NVals, Lists, Opts, NOps, Shard, NShards
+CONSTANTS Mode, MinKeys, MaxKeys, MaxLen, MaxEmpty, NVals, Lists, Opts, NOps, Shard, NShards, MaxSteps
 VARIABLES case, out
 vars == <<case, out>>
 
@@ -110,6 +117,45 @@ Hash(items) == Mix(17, FlatSeq([i \in DOMAIN items |-> <<100 + Len(items[i].v)>>
 InShard(n)  == (n % NShards) = Shard
 
 ---------------------------------------------------------------------------
+(* the sum expressions of a multi case: exactly the leaves lo..hi in order, inner nodes nested at most d deep; *)
+(* binary nodes are spelled "+", "combine" or "MultiSweep", unary and ternary ones "MultiSweep"                *)
+RECURSIVE SeqProd(_)             \* all sequences that pick one element from each set of a sequence of sets
+SeqProd(sets) == IF sets = <<>> THEN {<<>>} ELSE {<<x>> \o r : x \in Head(sets), r \in SeqProd(Tail(sets))}
+RECURSIVE Cuts(_, _, _)          \* lo..hi cut into m consecutive non-empty intervals <<lo_j, hi_j>>
+Cuts(lo, hi, m) == IF m = 1 THEN {<< <<lo, hi>> >>}
+                   ELSE UNION {{<< <<lo, c>> >> \o r : r \in Cuts(c + 1, hi, m - 1)} : c \in lo..(hi - m + 1)}
+Spellings(m) == IF m = 2 THEN {"+", "combine", "MultiSweep"} ELSE {"MultiSweep"}
+RECURSIVE SumExprsOn(_, _, _)
+SumExprsOn(d, lo, hi) ==
+    (IF lo = hi THEN {Leaf(lo)} ELSE {}) \cup
+    (IF d = 0 THEN {} ELSE
+     UNION {UNION {{Node(op, ch) : op \in Spellings(m),
+                                   ch \in SeqProd([j \in 1..m |-> SumExprsOn(d - 1, cut[j][1], cut[j][2])])}
+                   : cut \in Cuts(lo, hi, m)}
+            : m \in 1..(IF hi - lo + 1 < 3 THEN hi - lo + 1 ELSE 3)})
+SumExprs(n) == SumExprsOn(2, 1, n) \ {Leaf(1)}
+Shapes      == SumExprs(NOps)                  \* constant: evaluated once per run
+
+(* the operands of the histories: two fixed triples (the sums never look inside an operand): one with *)
+(* plain / zipped-singleton / option-carrying operands of different lengths, one with operands that   *)
+(* enumerate nothing (an empty value list, no items at all) next to an option-carrying one            *)
+It(k, v)    == <<[k |-> k, v |-> v]>>
+Two(items, ix) == O(CFresh(ix), DConst(items, ix), EFirst(items))
+HistTriples ==
+    {<<Mk(It("a", <<11, 12>>), NoDims, FALSE, O(<<>>, <<>>, <<>>)),
+       Mk(It("b", <<21, 22>>), << <<"b">> >>, FALSE, Two(It("b", <<21, 22>>), 2)),
+       Mk(It("c", <<31>>), << <<"c">> >>, TRUE, O(<<>>, <<>>, <<>>))>>,
+     <<Mk(It("a", <<>>), NoDims, FALSE, O(<<>>, <<>>, <<>>)),
+       Mk(<<>>, NoDims, FALSE, O(<<>>, <<>>, <<>>)),
+       Mk(It("c", <<31, 32>>), NoDims, FALSE, Two(It("c", <<31, 32>>), 3))>>}
+(* the steps possible with n objects *)
+SumOps(n)   == {[f |-> "sum", a |-> <<x, y>>] : x, y \in 1..n}
+MultiOps(n) == {[f |-> "multi", a |-> a] : a \in UNION {[1..m -> 1..n] : m \in 0..2}}
+OpId(op, n) == IF op.f = "sum" THEN (op.a[1] - 1) * n + (op.a[2] - 1)               \* numbers the steps 0, 1, ..
+               ELSE n * n + (IF Len(op.a) = 0 THEN 0 ELSE IF Len(op.a) = 1 THEN op.a[1]
+                             ELSE n + (op.a[1] - 1) * n + op.a[2])
+
+---------------------------------------------------------------------------
 (* expected results *)
 OutSingle(s) == LET e == ErrorOf(s) IN
     [err |-> e, ordered |-> OrderFixedOf(s),
@@ -136,10 +182,15 @@ Pipelines ==
 OutCount(s, pl) == LET deps == Deps(pl.funcs, pl.target, NameOrder) IN
     [deps |-> deps, counts |-> Count(CombosOf(s), deps)]
 
+(* a history: the store - what every object (operands 1..n, then one result per step) enumerates, and its len *)
+HistOut(ss, st) == [objs |-> st, ordered |-> \A i \in DOMAIN ss : OrderFixedOf(ss[i])]
+OutHist(c) == HistOut(c.ss, RunStore(StoreInit(c.ss), c.ops))
+
 OutOf(c) == CASE c.kind = "single" -> OutSingle(c.s)
               [] c.kind = "multi"  -> OutMulti(c.ss)
               [] c.kind = "filter" -> OutFilter(c.s, c.keys)
               [] c.kind = "count"  -> OutCount(c.s, c.pl)
+              [] c.kind = "hist"   -> OutHist(c)
 
 ---------------------------------------------------------------------------
 (* the universes *)
@@ -178,16 +229,31 @@ InitCount ==
     \E s \in SweepsOn(items, 0, n, 1, FALSE) :
         \E pl \in Pipelines : RootSet(pl.funcs, pl.target) \subseteq AllKeys(s) /\ Set([kind |-> "count", s |-> s, pl |-> pl])
 
+(* histories: the initial states hold the three operands only; NextHist forms one more sum from objects that  *)
+(* exist.  From the second step on a step takes at least one earlier result as an argument (a step over        *)
+(* operands only is what some first step does already).  sp = how "sum" steps are spelled in this history.    *)
+(* Shards split the first step.                                                                                *)
+InitHist ==
+    \E ss \in HistTriples : \E sp \in {"+", "combine"} : Set([kind |-> "hist", ss |-> ss, sp |-> sp, ops |-> <<>>])
+NextHist ==
+    /\ Len(case.ops) < MaxSteps
+    /\ LET n == Len(case.ss) + Len(case.ops) IN
+       \E op \in SumOps(n) \cup MultiOps(n) :
+          /\ IF case.ops = <<>> THEN InShard(OpId(op, n)) ELSE \E j \in DOMAIN op.a : op.a[j] > Len(case.ss)
+          /\ case' = [case EXCEPT !.ops = Append(@, op)]
+          /\ out' = [out EXCEPT !.objs = StepStore(@, op)]
+
 Init == CASE Mode = "single" -> InitSingle
           [] Mode = "multi"  -> InitMulti
           [] Mode = "filter" -> InitFilter
           [] Mode = "count"  -> InitCount
-Next == UNCHANGED vars
+          [] Mode = "hist"   -> InitHist
+Next == IF Mode = "hist" THEN NextHist ELSE UNCHANGED vars
 Spec == Init /\ [][Next]_vars
 
 ---------------------------------------------------------------------------
 (* invariants: the laws per case *)
-SweepsOf(c) == IF c.kind = "multi" THEN Range(c.ss) ELSE {c.s}
+SweepsOf(c) == IF c.kind \in {"multi", "hist"} THEN Range(c.ss) ELSE {c.s}
 InvWellFormed  == \A s \in SweepsOf(case) : WellFormed(s.items, s.dims)
 InvOut         == out = OutOf(case)
 InvExactlyOnce == \A s \in SweepsOf(case) : LawExactlyOnce(s.items, s.dims)
@@ -198,8 +264,16 @@ InvLen         == \A s \in SweepsOf(case) : LawLen(s)
 InvProduct     == case.kind = "multi" => DisjointKeys(case.ss) /\ LawProduct(case.ss)
                                           /\ (~ProductDontCare(case.ss) => LawLen(Merge(case.ss)))
 InvConcat      == case.kind = "multi" => LawConcat(case.ss)
+InvSums        == case.kind = "multi" =>          \* every sum expression over the operands in order is the concatenation
+                     LET L == OperandLists(case.ss)  N == OperandLens(case.ss) IN
+                     \A e \in Shapes : EvalSum(e, L) = out.concat /\ LenSum(e, N) = out.clen
+InvHistory     == case.kind = "hist" => LawHistory(case.ss, case.ops, case.sp, out.objs)
 InvFiltered    == case.kind = "filter" => case.s.consts = <<>> /\ case.s.excl = <<>> /\ LawFiltered(case.s, Range(case.keys))
 InvCount       == case.kind = "count" => LawCount(CombosOf(case.s), out.deps)
+
+(* the sum expressions every multi case of this run is evaluated through *)
+ASSUME IF Mode = "multi" THEN PrintT(<<"SHAPES", ToJson(Shapes)>>) ELSE TRUE
+ASSUME Mode = "multi" => \A e \in Shapes : Leaves(e) = [i \in 1..NOps |-> i]      \* the operands, in order
 
 Emit == PrintT(<<"CASE", ToJson([c |-> case, out |-> out])>>)
 =============================================================================
